@@ -126,6 +126,23 @@ impl Inst {
         }
         v
     }
+    /// `self.clone_from(src)`; false if the type is not Clone or the two are of different types
+    pub fn assign_from(&mut self, src: &Inst) -> bool {
+        match (self, src) {
+            (Inst::B(a), Inst::B(b)) => a.assign_from(b.as_any()),
+            (Inst::S(a), Inst::S(b)) => a.assign_from(b.as_any()),
+            (Inst::C(a), Inst::C(b)) => a.assign_from(b.as_any()),
+            (Inst::F(a), Inst::F(b)) => a.assign_from(b.as_any()),
+            _ => false,
+        }
+    }
+    pub fn block_pos(&self) -> Option<u128> {
+        match self {
+            Inst::S(o) => o.block_pos(),
+            Inst::C(o) => o.get_pos(),
+            _ => None,
+        }
+    }
     pub fn snapshot_remaining(&self) -> Option<usize> {
         match self {
             Inst::S(o) => o.remaining_blocks(),
